@@ -4,11 +4,13 @@ import (
 	"fmt"
 	"io"
 	"os"
+	"sync"
 )
 
 type fileDisk struct {
 	fpath     string
 	f         *os.File
+	mutex     sync.Mutex // protects buffer and size of parts, that can be read while the file is being written
 	parts     []*partDisk
 	finalSize uint64
 }
@@ -27,6 +29,9 @@ func newFileDisk(fpath string) (File, error) {
 
 // Finalize implements File.
 func (s *fileDisk) Finalize() {
+	s.mutex.Lock()
+	defer s.mutex.Unlock()
+
 	if len(s.parts) > 0 {
 		// set size of last part
 		lastPart := s.parts[len(s.parts)-1]
@@ -56,6 +61,9 @@ func (s *fileDisk) Remove() {
 
 // NewPart implements File.
 func (s *fileDisk) NewPart() Part {
+	s.mutex.Lock()
+	defer s.mutex.Unlock()
+
 	// set size of last part and get offset
 	offset := uint64(0)
 	if len(s.parts) > 0 {
